@@ -5,6 +5,7 @@ package runtime
 
 import (
 	"fmt"
+	"math"
 	"strings"
 	"time"
 
@@ -291,6 +292,10 @@ func (m *runtimeContextManager) updateTimeUsed() {
 func (m *runtimeContextManager) LinearUnused(cpuFactor uint64) uint64 {
 	mem := m.UnusedMem()
 	cpu := m.UnusedCPU() * cpuFactor
+	if cpuFactor != 0 && cpu/cpuFactor != m.UnusedCPU() {
+		// The product overflowed: the budget is as large as can be expressed
+		cpu = math.MaxUint64
+	}
 	switch {
 	case cpu == 0:
 		return mem
